@@ -120,16 +120,17 @@ fn scan_notes(r: &R, off: u64, size: u64, align: u64) -> Result<Option<Vec<u8>>,
     let area = r.get(off, size).ok_or("note area out of bounds")?;
     let ar = R { b: area, be: r.be };
     let mut p = 0u64;
-    let up = |x: u64| (x + align - 1) & !(align - 1);
     while p + 12 <= size {
         let namesz = ar.u32(p).unwrap() as u64;
         let descsz = ar.u32(p + 4).unwrap() as u64;
         let ty = ar.u32(p + 8).unwrap();
+        // offsets (not sizes) are aligned: ELF_NOTE_DESC_OFFSET = ALIGN_UP(sizeof(Nhdr) + namesz, align)
         let name_off = p + 12;
-        let desc_off = name_off.checked_add(up(namesz)).ok_or("note overflow")?;
-        let next = desc_off.checked_add(up(descsz)).ok_or("note overflow")?;
+        let desc_off = name_off.checked_add(namesz).and_then(|x| x.checked_add(align - 1)).map(|x| x & !(align - 1)).ok_or("note overflow")?;
+        let next = desc_off.checked_add(descsz).and_then(|x| x.checked_add(align - 1)).map(|x| x & !(align - 1)).ok_or("note overflow")?;
         let name = ar.get(name_off, namesz).ok_or("note name out of bounds")?;
         let desc = ar.get(desc_off, descsz).ok_or("note desc out of bounds")?;
+        let next = next.min(size.max(desc_off + descsz));
         if ty == NT_GNU_BUILD_ID && name == b"GNU\0" {
             return Ok(Some(desc.to_vec()));
         }
